@@ -5,6 +5,7 @@ import (
 	"encoding/json"
 	"fmt"
 	"slices"
+	"sort"
 	"strings"
 	"testing/synctest"
 	"time"
@@ -108,6 +109,7 @@ func c06Check(r *mc.Report, nodeName string, node enode.ID, radius, dist *uint25
 	if dist.Eq(radius) {
 		// the statement fixes both sides of the boundary but not the boundary itself
 		r.Exec(fmt.Sprintf("%s:boundary:%v", via, got))
+		c06Boundary.note(radius, via, got)
 		return
 	}
 	if got != want {
@@ -193,6 +195,7 @@ func c06Callers(r *mc.Report) {
 				n++
 				if d.Eq(radius) {
 					r.Exec(fmt.Sprintf("Gossip:boundary:%v", chosen))
+					c06Boundary.note(radius, "Gossip", chosen)
 					continue
 				}
 				if want := d.Lt(radius); chosen != want {
@@ -238,6 +241,7 @@ func c06Callers(r *mc.Report) {
 				n++
 				if d.Eq(radius) {
 					r.Exec(fmt.Sprintf("OfferFilter:boundary:%v", accepted))
+					c06Boundary.note(radius, fmt.Sprintf("OfferFilter:v%d", ver), accepted)
 					continue
 				}
 				if want := d.Lt(radius); accepted != want {
@@ -255,6 +259,49 @@ func c06Callers(r *mc.Report) {
 	r.Count("in_range_caller_cases", int64(n))
 }
 
+// c06Boundary: what each user of the in-range test says where the distance equals the radius.
+// The statement leaves that verdict open, but it is "this same rule" for all of them: the
+// callers must agree with each other there too.
+type c06BoundaryLog map[string]map[string]bool
+
+var c06Boundary = c06BoundaryLog{}
+
+func (l c06BoundaryLog) note(radius *uint256.Int, via string, verdict bool) {
+	k := radius.Hex()
+	if l[k] == nil {
+		l[k] = map[string]bool{}
+	}
+	if old, seen := l[k][via]; seen && old != verdict {
+		l[k][via+":varies"] = true
+	}
+	l[k][via] = verdict
+}
+
+func (l c06BoundaryLog) judge(r *mc.Report) {
+	n := 0
+	for radius, by := range l {
+		var yes, no []string
+		for via, v := range by {
+			if v {
+				yes = append(yes, via)
+			} else {
+				no = append(no, via)
+			}
+		}
+		n += len(by)
+		if len(yes) > 0 && len(no) > 0 {
+			sort.Strings(yes)
+			sort.Strings(no)
+			minority := yes
+			if len(no) < len(yes) {
+				minority = no
+			}
+			r.Violation("users-of-the-in-range-test-agree", "boundary:"+strings.Join(minority, "+"), fmt.Sprintf("distance == radius == %s: in range according to %v, not in range according to %v", radius, yes, no), c06Case{"boundary", radius, radius, strings.Join(minority, "+")})
+		}
+	}
+	r.Count("boundary_verdicts_compared", int64(n))
+}
+
 func runC06(r *mc.Report, e *Env) {
 	r.Rule = "(a) BFS over put histories (see C05) with the radius clauses evaluated after every put on a scan of the database; (b) full product of a boundary lattice of radii x distances x 3 node ids through the in-range test and the Store RPC; distinct = distinct canonical store states / (verdict, radius bits, distance bits)"
 	nb := len(c05Tasks(e.Thorough()))
@@ -264,6 +311,7 @@ func runC06(r *mc.Report, e *Env) {
 	if e.Of <= 1 || e.Shard == nb {
 		c06Product(r)
 		c06Callers(r)
+		c06Boundary.judge(r)
 	}
 	for t := 0; t < c06bTasks(); t++ {
 		if e.Of <= 1 || e.Shard == nb+1+t {
@@ -285,8 +333,10 @@ func replayC06(r *mc.Report, e *Env, raw json.RawMessage) {
 	if err := json.Unmarshal(raw, &c); err != nil {
 		panic(err)
 	}
-	if c.Via == "Gossip" || strings.HasPrefix(c.Via, "OfferFilter") {
-		c06Callers(r) // the whole lattice again (a second): the report lists what reproduces
+	if c.Via == "Gossip" || strings.HasPrefix(c.Via, "OfferFilter") || c.Node == "boundary" {
+		c06Product(r) // the whole lattice again (a second): the report lists what reproduces
+		c06Callers(r)
+		c06Boundary.judge(r)
 		return
 	}
 	radius, dist := uint256.MustFromHex(c.Radius), uint256.MustFromHex(c.Distance)
